@@ -480,6 +480,70 @@ func runC15(c *Check) {
 			}
 		}
 	}
+	// ---- R5: whether a transaction is staged is decided by the transaction alone. A branch on
+	// what the committed datastore holds (Get / Has / GetSize / Query of the executor's database)
+	// from which the commit is reachable without any staged write means "this write was skipped
+	// because of what is stored": the stored value is the state *before* the block, not the state
+	// after the block's earlier transactions, so the outcome depends on how transactions are split
+	// into blocks and on re-execution. (A skip that also consults a record of the block's own
+	// staged writes — a map looked up on the way — is not reported.)
+	{
+		c.Doc("C15-R5", "GA+EO: no staged write of ExecuteTxs is skipped on account of what the committed datastore holds (a branch on a datastore read from which the commit is reached without a staged write), unless the block's own staged writes are consulted as well.")
+		g := BuildECFG(p, exec, ExpandOpts{MaxDepth: 2, Stop: func(f *ssa.Function) bool { return f == root }})
+		isStaged := func(n *Node) bool {
+			if !(dsCall(n, "Put") || dsCall(n, "Delete")) {
+				return false
+			}
+			r := RecvTerm(n)
+			return r != nil && r.Op == "extract" && r.Args[0].Op == "invoke" && strings.HasSuffix(r.Args[0].Name, ".Batch")
+		}
+		commits := g.Select(func(n *Node) bool { return dsCall(n, "Commit") })
+		readsStore := func(t *Term) bool {
+			return t.Contains(func(x *Term) bool {
+				if x.Op != "invoke" {
+					return false
+				}
+				for _, m := range []string{".Get", ".Has", ".GetSize", ".Query"} {
+					if strings.HasSuffix(x.Name, m) && strings.Contains(x.Name, "go-datastore") {
+						return true
+					}
+				}
+				return false
+			})
+		}
+		hasLookup := func(t *Term) bool { return t.Contains(func(x *Term) bool { return x.Op == "lookup" }) }
+		edges := g.Select(EdgeWhere(func(t *Term, pol bool, n *Node) bool { return readsStore(t) }))
+		var bad []*Node
+		nEdges := 0
+		for _, e := range edges {
+			e := e
+			nEdges++
+			path := g.PathAvoiding([]*Node{e}, nodeSet(commits), isStaged)
+			if path == nil {
+				continue
+			}
+			exempt := false
+			if t, _ := CondTerm(e); t != nil && hasLookup(t) {
+				exempt = true
+			}
+			for _, f := range g.NecessaryEdges(func(n *Node) bool { return n == e }) {
+				if hasLookup(f.Cond) {
+					exempt = true
+				}
+			}
+			if !exempt && bad == nil {
+				bad = path
+			}
+		}
+		switch {
+		case len(commits) == 0 || len(g.Select(isStaged)) == 0:
+			c.Unk("C15-R5", "ExecuteTxs ⟂ no-write-skipped-on-stored-contents", fnName(exec), "", "anchor lost: no staged write or no commit in ExecuteTxs")
+		default:
+			c.Decide("C15-R5", "ExecuteTxs ⟂ no-write-skipped-on-stored-contents", fnName(exec), p.Pos(exec.Pos()),
+				fmt.Sprintf("no branch on a read of the committed datastore (%d such branches) leads to the commit past the staged write", nEdges),
+				"a branch on what the committed datastore holds reaches the commit without the staged write: the write of a transaction is skipped because of the state before the block, which the block's earlier transactions may already have changed — the resulting state depends on block boundaries and changes on re-execution", g, bad)
+		}
+	}
 	// ---- R4: the genesis writes are guarded by the *presence* of a key that the guarded
 	// region itself writes (a marker). A test on a stored value is not a marker: the genesis
 	// state root of an empty chain is the empty string.
@@ -574,6 +638,7 @@ func runC15(c *Check) {
 	c.MinInstances("C15-R2", 5)
 	c.MinInstances("C15-R3", 4)
 	c.MinInstances("C15-R4", 2)
+	c.MinInstances("C15-R5", 1)
 }
 
 // soundRootCache: leaf is a load of a receiver field that remembers the state root. That is as
